@@ -104,6 +104,12 @@ def summarize_loop(sx, st, fr, blockset):
             init[(cell, path)] = sx.resolve_deep(st, old)
             havoc[(cell, path)] = new
             sx.write_cell(s0, cell, path, new, log=False)
+        cell_havoc = {}
+        for c in set(c for c, _ in havoc):
+            try:
+                cell_havoc[c] = sx.resolve_deep(s0, sx.read_cell(s0, c, ()))
+            except (Infeasible, Unsupported):
+                pass
         s0.active_loops = dict(s0.active_loops)
         s0.active_loops[key] = rec
         s0.writes = []
@@ -124,6 +130,16 @@ def summarize_loop(sx, st, fr, blockset):
 
     rec['init'] = init
     rec['havoc'] = havoc
+    cells_w = sorted(set(c for c, _ in havoc), key=repr)
+    rec['cell_labels'] = {c: loc_label(sx, fr, c, (), 0) for c in cells_w}
+    rec['cell_init'] = {}
+    rec['cell_havoc'] = {}
+    rec['cell_havoc'] = cell_havoc
+    for c in cells_w:
+        try:
+            rec['cell_init'][c] = sx.resolve_deep(st, sx.read_cell(st, c, ()))
+        except (Infeasible, Unsupported):
+            pass
     rec['labels'] = {loc: loc_label(sx, fr, loc[0], loc[1], n) for n, loc in enumerate(sorted(W, key=repr))}
     steps = []
     for s in backs:
@@ -133,7 +149,14 @@ def summarize_loop(sx, st, fr, blockset):
                 post[loc] = sx.resolve_deep(s, sx.read_cell(s, loc[0], loc[1]))
             except (Infeasible, Unsupported):
                 post[loc] = ('unknown', 'unreadable')
-        steps.append({'guard': s.guard[g0:], 'events': s.events[e0:], 'post': post, 'unknowns': list(s.unknowns)})
+        cell_post = {}
+        for c in cells_w:
+            try:
+                cell_post[c] = sx.resolve_deep(s, sx.read_cell(s, c, ()))
+            except (Infeasible, Unsupported):
+                cell_post[c] = ('unknown', 'unreadable')
+        steps.append({'guard': s.guard[g0:], 'events': s.events[e0:], 'post': post, 'cell_post': cell_post,
+                      'unknowns': list(s.unknowns)})
     rec['steps'] = steps
     rec['n_exits'] = len(exits)
     rec['n_terms'] = len(terms)
